@@ -2,6 +2,7 @@ package rules
 
 import (
 	"fmt"
+	"go/token"
 	"regexp"
 	"strconv"
 	"strings"
@@ -441,11 +442,22 @@ func runSQLHash(c *core.Ctx) {
 	c.Check(okTag, nil, "sqlite", "tag_hash", "-", fmt.Sprintf("writer and reader both hash md5(name+value) (%v)", where), fmt.Sprintf("tag hash shapes %v in %v: writer and reader disagree, so #x conditions never match stored tags", shapes, where))
 	// tombstone key vs addressable key: same expression over (hash(pubkey), hash(address)), same seed
 	key := P.Func(P.Sqlite, "getEventKey")
+	// the tombstone builder: a row whose key hashes a tag value of the deletion event
 	var tomb *ssa.Function
 	for _, fn := range sqliteFuncs(c) {
-		for _, call := range callsNamed(fn, "strings.Split") {
-			_ = call
-			tomb = fn
+		if fn == key || fn.Parent() != nil {
+			continue
+		}
+		if row := builderRow(fn); len(row) > 0 {
+			shape, _, vals := hashKeyDescr(fn, row[0], nil)
+			if !strings.Contains(shape, "<<") {
+				continue
+			}
+			for _, w := range vals {
+				if strings.HasSuffix(w.path, ".Tags[*][1]") {
+					tomb = fn
+				}
+			}
 		}
 	}
 	if key == nil || tomb == nil {
@@ -454,38 +466,187 @@ func runSQLHash(c *core.Ctx) {
 	}
 	c.CountFuncs(2)
 	// key expression shapes: (hash<<32 | hash) over what was written into the hasher,
-	// whether computed inline or in a shared module helper (read in the caller's terms)
-	keyShape := ""
+	// whether computed inline or in a shared module helper (read in the caller's terms).
+	// The addressable key is the one fed with two strings: the author and the address
+	// kind:author:d — spelled with Sprintf, concatenation, FormatInt, …
+	keyShape, keyAddr := "", ""
 	for _, rb := range an.ReturnBlocks(key) {
-		r := an.LastInstr(rb).(*ssa.Return)
-		if !isConstBool(r.Results[1], true) {
+		rv := an.ReturnValues(an.LastInstr(rb).(*ssa.Return))
+		if len(rv) != 2 || !isConstBool(rv[1], true) {
 			continue
 		}
-		shape, writes := hashKeyDescr(key, r.Results[0], rb)
-		if !strings.Contains(shape, "<<") {
+		shape, _, vals := hashKeyDescr(key, rv[0], rb)
+		if !strings.Contains(shape, "<<") || len(vals) != 2 {
 			continue
 		}
-		// the addressable return: guarded by ParamReplaceable
-		for _, w := range writes {
-			if strings.Contains(w, "%d:%s:%s") {
-				keyShape = shape
-			}
+		parts := vals[1].parts
+		if strings.HasSuffix(vals[0].path, ".Pubkey") && len(parts) == 5 && strings.HasSuffix(parts[0], ".Kind") && parts[1] == `":"` && parts[2] == vals[0].path && parts[3] == `":"` {
+			keyShape = shape
 		}
+		keyAddr = strings.Join(parts, " + ")
 	}
 	tombShape := ""
 	var tombWrites []string
+	okW := false
 	if row := builderRow(tomb); len(row) > 0 {
-		tombShape, tombWrites = hashKeyDescr(tomb, row[0], nil)
+		var vals []hashWrite
+		tombShape, tombWrites, vals = hashKeyDescr(tomb, row[0], nil)
+		// author part = the field after the first ':' of the tag value, address = the whole tag value
+		if len(vals) == 2 && strings.HasSuffix(vals[1].path, ".Tags[*][1]") && vals[0].val != nil {
+			if src, ok := secondColonField(vals[0].val); ok && an.PathOf(src) == vals[1].path {
+				okW = true
+			}
+		}
 	}
-	okW := len(tombWrites) == 2 && strings.Contains(tombWrites[0], "strings.Split(") && strings.HasSuffix(tombWrites[0], "[1]") && strings.HasSuffix(tombWrites[1], ".Tags[*][1]")
 	c.Check(keyShape != "" && keyShape == tombShape && okW, nil, fname(c, tomb), "address-key", P.Pos(tomb.Pos()),
-		"tombstone key = hash(pubkey part)<<32 | hash(whole address), the same expression as the addressable storage key", fmt.Sprintf("tombstone key %q built from %v vs storage key %q: an 'a' deletion can never equal the key of the event it references", tombShape, tombWrites, keyShape))
+		"tombstone key = hash(pubkey part)<<32 | hash(whole address), the same expression as the addressable storage key (address = "+keyAddr+")", fmt.Sprintf("tombstone key %q built from %v vs storage key %q over address %s: an 'a' deletion can never equal the key of the event it references", tombShape, tombWrites, keyShape, keyAddr))
+}
+
+// hashWrite: one string fed into the hasher: its value (in the function where
+// the key is requested when it is a plain argument of a key helper), its access
+// path in that function's terms and its parts when it is put together from pieces.
+type hashWrite struct {
+	val   ssa.Value
+	path  string
+	parts []string
+}
+
+// strParts: a string built by Sprintf("%d:%s", …), by concatenation, by
+// FormatInt/Itoa — as the list of its pieces (literals quoted, values by path).
+func strParts(v ssa.Value, path func(ssa.Value) string) []string {
+	v = an.Unwrap(v)
+	var out []string
+	add := func(ps ...string) {
+		for _, p := range ps {
+			if n := len(out); n > 0 && strings.HasPrefix(p, `"`) && strings.HasPrefix(out[n-1], `"`) {
+				out[n-1] = out[n-1][:len(out[n-1])-1] + p[1:]
+				continue
+			}
+			out = append(out, p)
+		}
+	}
+	switch x := v.(type) {
+	case *ssa.Const:
+		if s, ok := an.ConstStr(x); ok {
+			return []string{strconv.Quote(s)}
+		}
+	case *ssa.BinOp:
+		if x.Op == token.ADD {
+			add(strParts(x.X, path)...)
+			add(strParts(x.Y, path)...)
+			return out
+		}
+	case *ssa.Call:
+		switch an.CalleeName(&x.Call) {
+		case "strconv.FormatInt":
+			if k, ok := an.ConstInt(x.Call.Args[1]); ok && k == 10 {
+				return []string{path(unconv(x.Call.Args[0]))}
+			}
+		case "strconv.Itoa":
+			return []string{path(unconv(x.Call.Args[0]))}
+		case "fmt.Sprintf":
+			format, ok := an.ConstStr(x.Call.Args[0])
+			args, ok2 := an.VariadicElems(x.Call.Args[1])
+			if !ok || !ok2 {
+				break
+			}
+			ai := 0
+			lit := ""
+			good := true
+			for i := 0; i < len(format); i++ {
+				if format[i] != '%' {
+					lit += string(format[i])
+					continue
+				}
+				i++
+				if i >= len(format) {
+					good = false
+					break
+				}
+				switch format[i] {
+				case '%':
+					lit += "%"
+				case 'd', 's', 'v':
+					if ai >= len(args) {
+						good = false
+						break
+					}
+					if lit != "" {
+						add(strconv.Quote(lit))
+						lit = ""
+					}
+					add(path(unconv(an.Unwrap(args[ai]))))
+					ai++
+				default:
+					good = false
+				}
+			}
+			if good && ai == len(args) {
+				if lit != "" {
+					add(strconv.Quote(lit))
+				}
+				return out
+			}
+		}
+	}
+	return []string{path(v)}
+}
+
+func unconv(v ssa.Value) ssa.Value {
+	for {
+		switch x := v.(type) {
+		case *ssa.Convert:
+			v = x.X
+		case *ssa.ChangeType:
+			v = x.X
+		case *ssa.MakeInterface:
+			v = x.X
+		default:
+			return v
+		}
+	}
+}
+
+// secondColonField: v is the text between the first and the second ':' of
+// some string src — strings.Split(src, ":")[1], SplitN(src, ":", n)[1] with
+// n ≥ 3 or n < 0, or Cut(after(Cut(src, ":")), ":") before.
+func secondColonField(v ssa.Value) (ssa.Value, bool) {
+	v = an.LoadedValue(an.Unwrap(v))
+	isColon := func(x ssa.Value) bool { s, ok := an.ConstStr(x); return ok && s == ":" }
+	if u, ok := v.(*ssa.UnOp); ok && u.Op == token.MUL {
+		if ia, ok := u.X.(*ssa.IndexAddr); ok {
+			if k, isK := an.ConstInt(ia.Index); isK && k == 1 {
+				if call, ok := an.LoadedValue(an.Unwrap(ia.X)).(*ssa.Call); ok {
+					switch an.CalleeName(&call.Call) {
+					case "strings.Split":
+						if isColon(call.Call.Args[1]) {
+							return call.Call.Args[0], true
+						}
+					case "strings.SplitN":
+						if n, isN := an.ConstInt(call.Call.Args[2]); isN && isColon(call.Call.Args[1]) && (n >= 3 || n < 0) {
+							return call.Call.Args[0], true
+						}
+					}
+				}
+			}
+		}
+	}
+	if ex, ok := v.(*ssa.Extract); ok && ex.Index == 0 {
+		if c2, ok := ex.Tuple.(*ssa.Call); ok && an.CalleeName(&c2.Call) == "strings.Cut" && isColon(c2.Call.Args[1]) {
+			if ex1, ok := an.LoadedValue(an.Unwrap(c2.Call.Args[0])).(*ssa.Extract); ok && ex1.Index == 1 {
+				if c1, ok := ex1.Tuple.(*ssa.Call); ok && an.CalleeName(&c1.Call) == "strings.Cut" && isColon(c1.Call.Args[1]) {
+					return c1.Call.Args[0], true
+				}
+			}
+		}
+	}
+	return nil, false
 }
 
 // hashKeyDescr: the shape of a 64-bit key value (hasher sums normalised to H)
 // and the strings written into the hasher before it, both in fn's terms. The
 // key may be computed inline in fn or by a module helper fn calls.
-func hashKeyDescr(fn *ssa.Function, v ssa.Value, at *ssa.BasicBlock) (shape string, writes []string) {
+func hashKeyDescr(fn *ssa.Function, v ssa.Value, at *ssa.BasicBlock) (shape string, writes []string, vals []hashWrite) {
 	v = an.Unwrap(v)
 	if cv, ok := v.(*ssa.Convert); ok {
 		v = an.Unwrap(cv.X)
@@ -499,23 +660,43 @@ func hashKeyDescr(fn *ssa.Function, v ssa.Value, at *ssa.BasicBlock) (shape stri
 				}
 				shape = normHash(an.PathOfIn(rv[0], &call.Call))
 				for _, w := range writesBeforeVals(g, rb) {
-					writes = append(writes, an.PathOfIn(w, &call.Call))
+					hw := hashWrite{path: an.PathOfIn(w, &call.Call)}
+					if par, isPar := an.Unwrap(w).(*ssa.Parameter); isPar && len(g.Params) == len(call.Call.Args) {
+						for i, gp := range g.Params {
+							if gp == par {
+								hw.val = call.Call.Args[i]
+							}
+						}
+					}
+					if hw.val != nil {
+						hw.parts = strParts(hw.val, an.PathOf)
+					} else {
+						hw.parts = strParts(w, func(x ssa.Value) string { return an.PathOfIn(x, &call.Call) })
+					}
+					writes = append(writes, hw.path)
+					vals = append(vals, hw)
 				}
 			}
-			return shape, writes
+			return shape, writes, vals
 		}
 	}
-	b := v.Parent().Blocks[0]
+	var b *ssa.BasicBlock
 	if in, ok := v.(ssa.Instruction); ok {
 		b = in.Block()
+	} else if v.Parent() != nil {
+		b = v.Parent().Blocks[0]
 	}
 	if at != nil {
 		b = at
 	}
+	if b == nil {
+		return an.PathOf(v), nil, nil
+	}
 	for _, w := range writesBeforeVals(fn, b) {
 		writes = append(writes, an.PathOf(w))
+		vals = append(vals, hashWrite{val: w, path: an.PathOf(w), parts: strParts(w, an.PathOf)})
 	}
-	return normHash(an.PathOf(v)), writes
+	return normHash(an.PathOf(v)), writes, vals
 }
 
 func normHash(p string) string {
